@@ -160,13 +160,18 @@ def generate(src):
            Or(task['cron'] != Val.none, task['time'] != Val.none),                     # ScheduledTask validator
            Implies(Val.is_dt(task['time']), And(Val.us(task['time']) >= 0, Val.us(task['time']) <= MAXUS, Val.tz(task['time']) >= 0,
                                                 Implies(Not(Val.aware(task['time'])), Val.tz(task['time']) == 0)))]
-    st.pc = list(pre)
-    st.env = {'task': task}
-    W = {'now_us': now_us, 'cron': task['cron'], 'cron_offset': task['cron_offset'], 'time': task['time']}
-    st.ghost = dict(now=now, clock_reads=IntVal(0), is_now_calls=IntVal(0), is_now_a0=Val.none, is_now_a1=Val.none, raised_by=None, __witness=W)
+    # signature: get_task_delay(task) - or get_task_delay(task, <instant>=None): then the contract is proved twice, (A) for the default (None: the
+    # function reads the clock itself) and (B) for an explicit aware-UTC instant (the function must use THAT instant; the caller's duty to pass
+    # a UTC-aware clock read taken after the listing is an obligation at the call site, unit u_sched_loop).
+    params = [a.arg for a in fdef.args.args]
+    if params[:1] != ['task'] or fdef.args.vararg or fdef.args.kwarg or fdef.args.kwonlyargs or len(params) > 2: raise Unsupported("get_task_delay signature: " + ast.unparse(fdef.args))
+    extra = params[1:]
+    if extra and not (len(fdef.args.defaults) == 1 and isinstance(fdef.args.defaults[0], ast.Constant) and fdef.args.defaults[0].value is None):
+        raise Unsupported("get_task_delay signature (extra parameter without default None): " + ast.unparse(fdef.args))
     H = {'logger.*': noop, 'datetime.now': h_now, 'isinstance': h_isinstance, 'is_now': h_is_now, 'timedelta': h_timedelta, 'to_tz_aware': h_to_tz_aware,
          'int': h_int, '*.astimezone': h_astimezone, 'pytz.timezone': h_pytz_timezone, '*.replace': h_replace, '*.total_seconds': h_total_seconds}
     ex = Ex(H, src)
+    W = {'now_us': now_us, 'cron': task['cron'], 'cron_offset': task['cron_offset'], 'time': task['time']}
     off = task['cron_offset']
     SHIFT = If(And(truthy(off), Val.is_td(off)), Val.dt(now_us + Val.tus(off), BoolVal(True), IntVal(0)),
                If(And(truthy(off), Val.is_strv(off)), astz(now, pytz_timezone(off)), now))
@@ -181,7 +186,7 @@ def generate(src):
                Implies(cronb, r == If(is_now(task['cron'], SHIFT), Val.intv(0), Val.none)), witness=W2, replay=rp)
         oblige(s, "get_task_delay/post: is_now consulted exactly once with (task.cron, shifted now)  [C13]",
                Implies(cronb, And(g['is_now_calls'] == 1, g['is_now_a0'] == task['cron'], g['is_now_a1'] == SHIFT)), witness=W2, replay=rp)
-        oblige(s, "get_task_delay/post: the clock is read exactly once  [C13/C14]", g['clock_reads'] == 1, witness=W2, replay=rp)
+        if not g['__explicit']: oblige(s, "get_task_delay/post: the clock is read exactly once  [C13/C14]", g['clock_reads'] == 1, witness=W2, replay=rp)
         timeb = And(task['cron'] == Val.none, task['time'] != Val.none)
         oblige(s, "get_task_delay/post: T <= now ==> due immediately (0)  [C14]", Implies(And(timeb, T <= now_us), r == Val.intv(0)), witness=W2, replay=rp)
         oblige(s, "get_task_delay/post: T more than 1 s past the next minute boundary ==> left for a later poll (None)  [C14]", Implies(And(timeb, T > Hz), r == Val.none), witness=W2, replay=rp)
@@ -194,7 +199,14 @@ def generate(src):
         oblige(s, "get_task_delay/raises: only what is_now raises (ValueError) or an unknown zone name (KeyError from pytz.timezone)  [C13/C14]",
                BoolVal(g['raised_by'] in ('is_now', 'pytz.timezone')), witness={'raised_by': STR.get(str(g['raised_by']))}, replay=rp)
         oblige(s, "get_task_delay/raises: never on the time branch  [C14]", task['cron'] != Val.none, replay=rp)
-    ex.run(fdef, st, on_ret, on_exc)
+    for explicit in ([False, True] if extra else [False]):
+        st = State(); st.pc = list(pre); st.env = {'task': task}; tag = "(explicit instant) " if explicit else ""
+        other_us = Int('other_clock_us')
+        if extra: st.env[extra[0]] = now if explicit else None
+        if explicit: st.pc += [other_us >= 0, other_us <= MAXUS]
+        st.ghost = dict(now=Val.dt(other_us, BoolVal(True), IntVal(0)) if explicit else now, clock_reads=IntVal(0), is_now_calls=IntVal(0), is_now_a0=Val.none, is_now_a1=Val.none, raised_by=None,
+                        __witness=W, __explicit=explicit, __tag=tag)
+        ex.run(fdef, st, on_ret, on_exc)
     src.note_paths('::get_task_delay', exits['return'] + exits['raise'])
     # vacuity of the precondition itself
     s0 = State(); s0.pc = list(pre); reach(s0, "get_task_delay/reach@precondition")
